@@ -17,13 +17,33 @@
 #include "bee.h"
 #include <aws/common/byte_buf.h>
 #include <aws/common/ring_buffer.h>
+#include <setjmp.h>
+#include <signal.h>
 #include <sys/mman.h>
 
 static const uint64_t RING[3] = {(1ull << 31) + 4096, 3ull << 30, (1ull << 32) + 4096};
 #define NOPS 9
 #define MAXLEN 5
 
-/* address space only */
+/* The storage is address space only: nothing in the property requires the implementation to read or write the ring's own
+ * bytes, and the original never does.  An implementation that does (wipes released buffers, zero-fills the ring) is as
+ * right; its first access faults here, and since giga-bytes of committed memory per worker are not available, such an
+ * item is abandoned and counted - never reported (a behaviour-preserving change that wiped released bytes with
+ * aws_secure_zero showed the first version of this harness raising a false alarm). */
+static uint8_t *g_store_lo, *g_store_hi;
+static sigjmp_buf g_touch_env;
+static volatile sig_atomic_t g_touch_armed;
+static struct sigaction g_prev_segv;
+static int g_have_prev;
+static void on_segv(int sig, siginfo_t *si, void *uc) {
+    (void)uc;
+    uint8_t *addr = (uint8_t *)si->si_addr;
+    if (g_touch_armed && addr >= g_store_lo && addr < g_store_hi) {
+        g_touch_armed = 0;
+        siglongjmp(g_touch_env, 1);
+    }
+    sigaction(sig, &g_prev_segv, NULL); /* anything else is a real fault: let it happen again and be reported by the sanitizer */
+}
 static void *big_acquire(struct aws_allocator *a, size_t size) {
     (void)a;
     size_t len = size + 4096;
@@ -34,6 +54,10 @@ static void *big_acquire(struct aws_allocator *a, size_t size) {
     }
     mprotect(p, 4096, PROT_READ | PROT_WRITE);
     *(size_t *)p = len;
+    if (size >= (1u << 30)) {
+        g_store_lo = p + 4096;
+        g_store_hi = p + len;
+    }
     return p + 4096;
 }
 static void big_release(struct aws_allocator *a, void *ptr) {
@@ -74,6 +98,23 @@ static void big_eval(uint64_t idx, void *ctx) {
     V_COUNT("evaluations", 1);
     struct aws_ring_buffer rb;
     AWS_ZERO_STRUCT(rb);
+    {
+        struct sigaction sa;
+        memset(&sa, 0, sizeof(sa));
+        sa.sa_sigaction = on_segv;
+        sa.sa_flags = SA_SIGINFO | SA_NODEFER;
+        struct sigaction prev;
+        sigaction(SIGSEGV, &sa, &prev);
+        if (!g_have_prev) g_prev_segv = prev, g_have_prev = 1;
+    }
+    g_store_lo = g_store_hi = NULL;
+    if (sigsetjmp(g_touch_env, 1)) {
+        V_COUNT("items_abandoned", 1); /* the implementation touches the ring's own storage */
+        if (g_store_lo) munmap(g_store_lo - 4096, (size_t)(g_store_hi - g_store_lo) + 4096);
+        g_store_lo = g_store_hi = NULL;
+        return;
+    }
+    g_touch_armed = 1;
     if (aws_ring_buffer_init(&rb, &big_alloc, (size_t)S) != AWS_OP_SUCCESS) {
         bee_fail("init-failed", "aws_ring_buffer_init(%" PRIu64 ") failed", S);
         return;
@@ -151,6 +192,7 @@ static void big_eval(uint64_t idx, void *ctx) {
     if (used_far) V_COUNT("nontrivial", 1); /* some buffer reached beyond offset 2^31 */
     while (first < nout) aws_ring_buffer_release(&rb, &bufs[first++]);
     aws_ring_buffer_clean_up(&rb);
+    g_touch_armed = 0;
     if (idx == 4242) v_sample("ring of %" PRIu64 " bytes: %s", S, prog);
 }
 
